@@ -83,12 +83,15 @@ fn simpler_targets(t: &TSpec) -> Vec<TSpec> {
                 v.push(TSpec::Own { kind: *kind, cont: *cont, leaves: leaves.clone(), ctor: Ctor::New, poison: *poison });
             }
         }
-        TSpec::OnData { data, kind, from, poison } => {
+        TSpec::OnData { data, kind, from, poison, unchecked } => {
             if *poison {
-                v.push(TSpec::OnData { data: *data, kind: *kind, from: *from, poison: false });
+                v.push(TSpec::OnData { data: *data, kind: *kind, from: *from, poison: false, unchecked: *unchecked });
             }
             if *from {
-                v.push(TSpec::OnData { data: *data, kind: *kind, from: false, poison: *poison });
+                v.push(TSpec::OnData { data: *data, kind: *kind, from: false, poison: *poison, unchecked: *unchecked });
+            }
+            if *unchecked {
+                v.push(TSpec::OnData { data: *data, kind: *kind, from: *from, poison: *poison, unchecked: false });
             }
         }
         _ => {}
